@@ -190,7 +190,7 @@ def run(ctx):
                     max_depth=rng.choice([6, 12, 40]))
         for k in range(30):
             if k == 0 and ti % 6 == ctx.shard % 6:
-                x = g.string(rng.choice([1, 2]), rng.choice([4200, 6000, 9000]))      # scale: one fragment of several thousand symbols
+                x = g.long_string(rng.choice([4200, 6000, 9000]))      # scale: one fragment of several thousand symbols
                 ctx.count("g2.very_long")
             elif rng.random() < 0.1:
                 x = g.string(1, rng.choice([300, 900]), ring_dense=True)
